@@ -12,7 +12,9 @@ pub mod c07;
 pub mod c08;
 pub mod c09;
 pub mod c11;
+pub mod c12;
 pub mod c13;
+pub mod c14;
 pub mod c15;
 pub mod c16;
 pub mod c19;
@@ -20,7 +22,7 @@ pub mod common;
 pub mod c20;
 
 pub fn implemented(id: &str) -> bool {
-    matches!(id, "C01" | "C02" | "C03" | "C04" | "C05" | "C06" | "C07" | "C08" | "C09" | "C11" | "C13" | "C15" | "C16" | "C19" | "C20")
+    matches!(id, "C01" | "C02" | "C03" | "C04" | "C05" | "C06" | "C07" | "C08" | "C09" | "C11" | "C12" | "C13" | "C14" | "C15" | "C16" | "C19" | "C20")
 }
 
 pub fn run(id: &str, ctx: &mut Ctx) {
@@ -35,7 +37,9 @@ pub fn run(id: &str, ctx: &mut Ctx) {
         "C08" => c08::run(ctx),
         "C09" => c09::run(ctx),
         "C11" => c11::run(ctx),
+        "C12" => c12::run(ctx),
         "C13" => c13::run(ctx),
+        "C14" => c14::run(ctx),
         "C15" => c15::run(ctx),
         "C16" => c16::run(ctx),
         "C19" => c19::run(ctx),
